@@ -20,6 +20,13 @@ FE_BASIC = ["secp256k1_fe_" + f for f in "cmov storage_cmov normalize normalize_
 GROUP_BASIC = ["secp256k1_ge_storage_cmov", "secp256k1_gej_cmov"]
 MOD = ["--replace-calls", "secp256k1_gej_add_ge:ct_havoc_gej_add_ge", "--replace-calls", "secp256k1_gej_double:ct_havoc_gej_double"]
 ODD = ["--replace-calls", "secp256k1_ecmult_const_odd_multiples_table_globalz:ct_stub_odd_multiples_table_globalz"]
+def API(name, entry, functions, rc=None, **kw):
+    if rc:
+        flat = []
+        for k, v in rc.items():
+            flat += ["--replace-calls", "%s:%s" % (k, v)]
+        kw["extra_instrument"] = [flat]
+    return CT(name, "api.c", entry, functions, **kw)
 UNITS = [
     CT("memczero", "util.c", "h_ct_memczero", ["secp256k1_memczero"], note="secret: flag, buffer; public: len", **LEN),
     CT("is_zero_array", "util.c", "h_ct_is_zero_array", ["secp256k1_is_zero_array"], note="secret: contents; public: len", **LEN),
@@ -89,6 +96,42 @@ UNITS = [
        note="modular: ecmult_gen / ge_set_gej return arbitrary points (own units); scalar_inverse, scalar_mul, cond_negate real"),
     CT("commit_seckey", "sign.c", "h_ct_commit_seckey", ["secp256k1_ec_commit_seckey", "secp256k1_ec_commit_tweak", "secp256k1_ec_seckey_tweak_add_helper"], unwind=10, bounded="hash byte counter 64, data length 32 (the s2c caller's values)",
        note="secret: tweaked scalar, point coordinates, hash state, data; public: infinity flag, block-aligned byte counter"),
+    # --- API-level compositions (harness/C06/api.c): two runs, independent secrets, only the bits the library declassifies are equal ---
+    API("api_seckey", "h_api_seckey", ["secp256k1_ec_seckey_verify", "secp256k1_ec_seckey_negate", "secp256k1_ec_seckey_tweak_add", "secp256k1_ec_seckey_tweak_mul"],
+        note="everything real, nothing assumed; key and tweak both secret"),
+    API("api_keygen", "h_api_keygen", ["secp256k1_ec_pubkey_create", "secp256k1_keypair_create", "secp256k1_ec_pubkey_create_helper"],
+        rc={"secp256k1_ecmult_gen": "api_ecmult_gen", "secp256k1_ge_set_gej": "api_ge_set_gej_secret"},
+        note="ecmult_gen (C06.ecmult_gen*) and ge_set_gej (C06.ge_set_gej) replaced by arbitrary-result stubs"),
+    API("api_keypair_tweak", "h_api_keypair_tweak", ["secp256k1_keypair_xonly_tweak_add", "secp256k1_keypair_load"],
+        rc={"secp256k1_ec_seckey_tweak_add_helper": "api_seckey_tweak_add_helper", "secp256k1_ec_pubkey_tweak_add_helper": "api_pubkey_tweak_add_helper"},
+        assumed=["secp256k1_ec_pubkey_tweak_add_helper"],
+        note="declassified: stored-key validity, combined tweak verdict (handed out equal by the stubs); seckey_tweak_add_helper is real in C06.api_seckey; pubkey_tweak_add_helper sees public data only"),
+    API("api_schnorrsig_sign", "h_api_schnorrsig_sign", ["secp256k1_schnorrsig_sign_internal", "secp256k1_keypair_load"],
+        rc={"nonce_function_bip340_impl": "api_nonce_bip340_impl", "secp256k1_ecmult_gen": "api_ecmult_gen", "secp256k1_ge_set_gej": "api_ge_set_gej_public",
+            "secp256k1_schnorrsig_challenge": "api_challenge"},
+        assumed=["secp256k1_schnorrsig_challenge"],
+        note="declassified: key validity, nonce point r (public table), nonce function return value; nonce bytes independent per run; nonce_function_bip340_impl: C06.nonce_bip340; challenge hash sees public data only"),
+    API("nonce_bip340", "h_api_nonce_bip340", ["nonce_function_bip340_impl"], unwind=70, bounded="message length 32; (BIP-340 algo, aux), (BIP-340 algo, no aux), (9-byte algo, aux)", note="real SHA-256; secret key32 and aux"),
+    API("api_ecdh", "h_api_ecdh", ["secp256k1_ecdh", "ecdh_hash_function_sha256_impl"],
+        rc={"secp256k1_ecmult_const": "api_ecmult_const", "secp256k1_ge_set_gej": "api_ge_set_gej_secret"},
+        note="public point, secret scalar; ecmult_const (C06.ecmult_const*) and ge_set_gej (C06.ge_set_gej) replaced; default hash real, user hash stub"),
+    API("api_musig_partial_sign", "h_api_musig_partial_sign", ["secp256k1_musig_partial_sign", "secp256k1_musig_secnonce_load", "secp256k1_keypair_load"],
+        rc={"secp256k1_musig_keyaggcoef": "api_keyaggcoef"}, assumed=["secp256k1_musig_keyaggcoef"],
+        note="declassified: nonce-scalars-all-zero bit, key validity; keyaggcoef sees public data only"),
+    API("api_musig_nonce_gen", "h_api_musig_nonce_gen", ["secp256k1_musig_nonce_gen", "secp256k1_musig_nonce_gen_internal", "secp256k1_nonce_function_musig"],
+        rc={"secp256k1_ecmult_gen": "api_ecmult_gen", "secp256k1_ge_set_all_gej": "api_ge_set_all_gej_public"},
+        unwind=140, bounded="all optional arguments present", timeout=1200,
+        note="declassified: secrand-all-zero bit, the two public nonces (public table); nonce hash real; ge_set_all_gej: C06.ge_set_all_gej"),
+    API("api_musig_nonce_gen_min", "h_api_musig_nonce_gen", ["secp256k1_musig_nonce_gen", "secp256k1_musig_nonce_gen_internal", "secp256k1_nonce_function_musig"],
+        rc={"secp256k1_ecmult_gen": "api_ecmult_gen", "secp256k1_ge_set_all_gej": "api_ge_set_all_gej_public"},
+        unwind=140, bounded="no optional argument present", defs=["NONCE_GEN_MINIMAL"], timeout=1200,
+        note="as C06.api_musig_nonce_gen, seckey/msg/cache/extra all NULL"),
+    API("ge_set_all_gej", "h_api_ge_set_all_gej", ["secp256k1_ge_set_all_gej", "secp256k1_ge_set_gej_zinv"], bounded="n = 2 points"),
+    API("api_adaptor", "h_api_adaptor", ["secp256k1_ecdsa_adaptor_decrypt", "secp256k1_musig_adapt", "secp256k1_musig_extract_adaptor"],
+        note="everything real; public: adaptor signature, pre-signature, nonce parity"),
+    API("api_randomize", "h_api_randomize", ["secp256k1_context_randomize", "secp256k1_ecmult_gen_blind"],
+        rc={"secp256k1_ecmult_gen": "api_ecmult_gen", "secp256k1_ge_set_gej": "api_ge_set_gej_secret"}, unwind=300,
+        note="secret: seed and previous blinding state; rfc6979/HMAC/SHA real; ecmult_gen and ge_set_gej replaced"),
 ]
 # --- alternative limb configuration (10x26 field, 8x32 scalar, modinv32): same harnesses, thorough tier ---
 for _n, _h, _e, _f in [("scalar_basic", "scalar.c", "h_ct_scalar_basic", SCALAR_BASIC), ("scalar_mul", "scalar.c", "h_ct_scalar_mul", ["secp256k1_scalar_mul", "secp256k1_scalar_sqr"]),
